@@ -8,7 +8,9 @@
          token minting): for every wire cap (None / any int) and every producer script <= N ticks with symbolic
          batch sizes, following the minted cursor turn after turn delivers exactly the emitted batches, once
          each, in order; resuming from the cursor of *any* turn delivers exactly the remaining ones; only the
-         last body of the chain lacks a continuation sentinel.
+         last body of the chain lacks a continuation sentinel; and within every turn a further produce iteration
+         starts only while the body is still below the cap, i.e. a turn's body exceeds the cap by at most the last
+         batch written (+ sentinel) — the same bound C16's producer_turn_body_exceeds_cap_by_last_batch_only decides.
 (c) xh : ``HttpStreamSession._resume_token`` / ``seek_to_token`` / ``_token_metadata`` (real methods): whatever a session
          held before (own cursor, own call token from its own /init, preloaded batches, finished flag), after
          ``seek_to_token(blob)`` its next request carries exactly the blob's cursor AND the blob's call token, so a
@@ -186,7 +188,14 @@ _TL = pick(8, 10)
 def _turn(app, script, fin_same, cursor):  # type: ignore[no-untyped-def]
     """One turn from ``cursor``: returns (delivered tags, next cursor or None, finished-without-sentinel, error?)."""
     state = M.ScriptState(script, fin_same, cursor)
-    blob, outcome, _starts, _ups = M.run_producer_turn(app, state)
+    blob, outcome, starts, _ups = M.run_producer_turn(app, state)
+    # chunking bound of the property: "a turn's body exceeds the cap by at most the last batch written" — producing
+    # goes on only while the body is still below the cap (no cap: one produce iteration per turn)
+    cap = app._max_response_bytes
+    for st in starts[1:]:
+        if cap is None or not (st < cap):
+            _OVERSHOOT.append((cap, list(starts)))
+            return None
     tags: list = []
     nxt = None
     n_sent = 0
@@ -210,6 +219,9 @@ def _turn(app, script, fin_same, cursor):  # type: ignore[no-untyped-def]
     if outcome.status != "ok" or n_sent > 1:
         return None
     return tags, nxt
+
+
+_OVERSHOOT: list = []
 
 
 def _chain(app, script, fin_same, cursor, limit):  # type: ignore[no-untyped-def]
@@ -257,7 +269,15 @@ def _real_sequences(rows: list[int], fin_same: bool, caps: list) -> tuple[list, 
 
 
 def _replay_chunking(args: dict) -> str | None:
-    """Real producer stream (distinct batch lengths), iterated by the real client under caps on every message boundary."""
+    """Real producer stream (distinct batch lengths), iterated by the real client under caps on every message boundary;
+    then the per-turn overshoot bound on real bodies (shared with C16)."""
+    r = _replay_sequences(args)
+    if r is not None:
+        return r
+    return M._replay_producer_body({"fin_same": args.get("fin_same", False)})
+
+
+def _replay_sequences(args: dict) -> str | None:
     n = max(1, min(4, args["n"]))
     rows = [10 + 7 * i for i in range(n)]
     _, base = _real_sequences(rows, args["fin_same"], [None])
